@@ -28,12 +28,23 @@ CHECKS = {
  "C05": dict(level="exploration", ref="DESIGN.md §5 C05",
    technique="deterministic simulation: virtual clock with seeded arrival-gap generator clustered around the refresh interval; window/staleness laws checked on recorded paint timestamps",
    text="One run covers up to days of simulated time: 50-400 redraw requests with gaps at exactly the interval +- 1 ns / 1 us, bursts, seconds, hours, for every refresh rate 1..=255 and unlimited targets, standalone and through a MultiProgress; the statement's laws (window bound 20+R*T+1, no starvation after one interval, position staleness <= interval + 1 ms, position bucket burst 10 / 1 ms, nothing lost) are evaluated on the timestamps of the frames that reached the simulated terminal. Sampling of arrival patterns; exact replay."),
+ "C06": dict(level="exploration", ref="DESIGN.md §5 C06",
+   technique="deterministic simulation: hidden bar and visible twin driven in lock-step on one virtual clock; spy terminal attributes every terminal call to the API call in progress; real console::Term over a non-tty file",
+   text="Seeded histories applied to a hidden bar (seven ways of being hidden, including a real non-tty console::Term and removal from a visible MultiProgress) and to a visible twin; getters must agree after every call and the hidden bar must make no terminal call or query, also while a steady ticker runs on simulated threads. Sampling; exact replay."),
  "C08": dict(level="exploration", ref="DESIGN.md §5 C08",
    technique="deterministic simulation: seeded random/sticky/PCT thread schedules at lock/condvar/spawn/join/atomic granularity with virtual timers, spurious wake-ups and clock jitter; deadlock (wait-for graph), no-time-scope and thread-lifecycle oracles",
    text="2-3 simulated user threads plus the library's ticker threads run short programs of public calls on shared handles; the scheduler owns every lock, condvar, spawn and join decision and the clock, so the three-party update()/ticker-slot/join interleaving is produced on demand and replayed exactly; stop calls must return without the virtual clock moving for intervals from 1 ms to 10 h; a second mode checks that the ticker ticks, that manual ticks do not advance the spinner and that it stops on finish/disable/replace/drop. Sampling of schedules; exact replay from seed or schedule file."),
  "C18": dict(level="fault_enumeration", ref="DESIGN.md §5 C18",
    technique="deterministic simulation with fault injection: for every sampled history every terminal-call index k fails (once / from then on) with rotating io::ErrorKind; differential against the fault-free run",
    text="Histories are sampled from the seed; for each history the fault index dimension is enumerated completely: every one of the N terminal calls of the fault-free run is failed, in two modes. No call may panic on any simulated thread, getters must equal the fault-free run after every call, io::Result-returning calls must report the error, and everything is exercised and dropped afterwards (poisoned locks show there)."),
+ "C09": dict(level="exploration", ref="DESIGN.md §5 C09",
+   technique="deterministic simulation: virtual clock, seeded (gap, position) history generator from 1 ms to days, algebraic-law oracles and metamorphic twin bars; f64 reference estimator only to classify the known finding",
+   text="Laws of the statement (finite/non-negative, exact for steady progress at any cadence, bounded by the largest sample rate, monotone decay while stalled, forgetfulness after reset/rewind, eta/duration relations) are checked on the real estimator driven through the public API with the clock behind a seam, so days of simulated time cost microseconds and getters are compared at one frozen instant. Sampling; exact replay."),
+ "C11": dict(level="exploration", ref="DESIGN.md §5 C11",
+   technique="deterministic simulation: random history then a frozen virtual instant; rendered key captured from the simulated terminal vs getter through the public formatter",
+   text="For 25 documented keys the text painted on the simulated terminal at a frozen instant must equal the getter value at that same instant pushed through the documented public formatter; custom keys must see the current state and be ticked/reset with the bar. Sampling over histories; exact replay."),
+ "C16": dict(level="exploration", ref="DESIGN.md §5 C16", technique=SEQ_TECH + "; byte-level inspection of every string reaching the terminal seam",
+   text="Seeded call orders of tab-width, style, message and prefix setters (builder calls in all 24 orders) with tabs in texts, template literals and custom-key output; no TAB may reach the terminal, the transcript must equal the model rendering with the current tab width, message()/prefix() must return the expanded text. Sampling; exact replay."),
  "C17": dict(level="exploration", ref="DESIGN.md §5 C17",
    technique="deterministic simulation with fault injection: simulated reader/writer/stream with seeded short/EINTR/EAGAIN/EIO/Pending/EOF plan, call-by-call differential against an unwrapped twin + position model; seeded rayon split driver with leaves on simulated threads",
    text="Seeded search over call sequences and fault plans on simulated I/O objects behind the adaptors' existing Read/BufRead/Write/Seek/tokio Async*/Stream/Iterator/rayon plumbing seams. Every call is compared with an unwrapped twin that follows the same seeded behaviour plan and position() with an exact transfer count. Sampling; exact replay from the scenario file."),
